@@ -44,6 +44,13 @@ def families():
              "SNAP1 = Snapshot(1, ['a'])\nSNAP2 = Snapshot(2, ['x'])\n"
              "def snap1():\n    SNAP1.tags[:] = ['a']\n    return SNAP1\n"
              "def snap2():\n    SNAP2.tags[:] = ['x']\n    return SNAP2\n"
+             # a live mapping that inserts a key when an absent one is looked up (collections.defaultdict), with more keys than
+             # the target declares and without some declared ones; the caller keeps it and uses it again
+             "import collections\n@dataclasses.dataclass\nclass Search:\n    q: str\n    page: int = 1\n    lang: str = 'en'\n"
+             "class Paging(typing.TypedDict, total=False):\n    size: int\n    page: int\n"
+             "PARAMS = collections.defaultdict(str)\nPARAMS2 = collections.defaultdict(str)\n"
+             "def params():\n    PARAMS.clear(); PARAMS.update({'q': 'x', 'utm1': 'a', 'utm2': 'b', 'utm3': 'c'})\n    return PARAMS\n"
+             "def params2():\n    PARAMS2.clear(); PARAMS2.update({'size': '5', 'k1': 'a', 'k2': 'b', 'k3': 'c'})\n    return PARAMS2\n"
              "@dataclasses.dataclass\nclass Comment:\n    id: int\n    replies: 'list[Comment]' = dataclasses.field(default_factory=list)\n"
              "@dataclasses.dataclass\nclass Chain:\n    n: int\n    nxt: 'typing.Optional[Chain]' = None\n"
              # the caller keeps one payload and repairs it in place: the nested objects keep their identity
@@ -159,6 +166,8 @@ def families():
         "frozen_instance_input": {(1, 1): um(SM.Snapshot, lambda: SM.snap1()), (1, 2): um(SM.Snapshot, lambda: SM.Snapshot(1, ["a", "b"])),
                                   (2, 1): um(list[SM.Snapshot], lambda: [SM.snap2()]),
                                   (2, 2): um(dict[str, SM.Snapshot], lambda: {"k": SM.snap2()})},
+        "inserting_mapping_input": {(1, 1): um(SM.Search, lambda: SM.params()), (1, 2): ma(dict[str, str], lambda: SM.params()),
+                                    (2, 1): um(SM.Paging, lambda: SM.params2()), (2, 2): (lambda x: typelib.encode(x, t=dict[str, str]), lambda: SM.params2())},
         # a rejection must stay a rejection: the same invalid input again, after valid ones, nested
         "typeddict_missing_key": {(1, 1): um(I.TD, lambda: {"y": "s"}), (1, 2): um(I.TD, lambda: {"x": "1", "y": "s"}),
                                   (2, 1): um(list[I.TD], lambda: [{"y": "t"}]), (2, 2): um(dict[str, I.TD], lambda: {"k": {"x": "2"}})},
@@ -349,4 +358,4 @@ class ExecZygote:
 FAMILY_NAMES = ["union_unmarshal", "union_marshal", "union_in_list", "instants", "instants_in_list", "text_carriers",
                 "bare_containers", "numbers", "same_name_classes", "string_refs", "recursive", "codec_configs", "dateparse",
                 "build_order", "build_order_nt", "same_routine_inputs", "same_routine_inputs2", "private_fields", "nested_text",
-                "nested_text2", "duration_classes", "temporal_text_targets", "equal_keys", "same_origin_kinds", "same_origin_kinds2", "value_classes", "retry_same_object", "subclass_after_base", "frozen_instance_input", "typeddict_missing_key", "typeddict_key_order"]
+                "nested_text2", "duration_classes", "temporal_text_targets", "equal_keys", "same_origin_kinds", "same_origin_kinds2", "value_classes", "retry_same_object", "subclass_after_base", "frozen_instance_input", "typeddict_missing_key", "typeddict_key_order", "inserting_mapping_input"]
